@@ -65,6 +65,7 @@ structure St' where
   acks : List (Nat × Nat × Payload) := []      -- index, term of the ack, payload
   nlogs : List (String × Nat × List LEntry) := []
   round : List (Nat × String) := []            -- applied, dump
+  smSeen : List (Nat × String) := []           -- (position, dump) of the `sm` histories over the current log
 
 def payloadAt (l : List LEntry) (i : Nat) : Option Payload := (l[i]?).map (·.payload)
 
@@ -93,7 +94,7 @@ def step (st : St') (line : String) : St' × String :=
   | ["round"], _ => ({ st with round := [] }, "")
   | ["clog", es], none =>
     match parseList parseEntry "," es with
-    | some l => ({ st with clog := l }, "")
+    | some l => ({ st with clog := l, smSeen := if l == st.clog then st.smSeen else [] }, "")
     | none => (st, "BADLINE clog")
   | ["ack", i, t, p], none =>
     match i.toNat?, t.toNat?, parsePayload p with
@@ -134,7 +135,14 @@ def step (st : St') (line : String) : St' × String :=
     | _, _ => (st, "BADLINE leader")
   | "sm" :: script, some res =>
     match runScript st.clog script with
-    | some m => (st, verdict s!"{m.applied} {dumpFull m.state}" res)
+    | some m =>
+      -- two storage histories over the same log that end at the same position must hold the same state
+      let pos := ((res.splitOn " ").head?.bind String.toNat?).getD 0
+      let clash := st.smSeen.filter fun (p, d) => p == pos && d != res
+      let st2 := { st with smSeen := (pos, res) :: st.smSeen }
+      if !clash.isEmpty then
+        (st2, s!"JUDGE C37 two state machines that applied the same log up to position {pos} (different batching / snapshots / restarts) differ")
+      else (st2, verdict s!"{m.applied} {dumpFull m.state}" res)
     | none => (st, "BADLINE sm")
   | [], _ => (st, "")
   | _, _ => (st, "BADLINE op")
